@@ -147,6 +147,31 @@ def build(run):
         flags["LEFT_FENCE"], P, flags["RIGHT_FENCE"], S), get=("i", "k"), witness=w("fence without prefix/postfix bit"), vacuity=dom,
         claim="LEFT_FENCE carries the PREFIX bit, RIGHT_FENCE the POSTFIX bit")
 
+    # matched fences: an opening fence and its mirror image close each other, so they must sit at the same priority (a close fence reduces
+    # the stack down to ITS priority; with a different priority the row opened by its partner is not the one that gets closed)
+    import unicodedata
+    idx = {k: i for i, (k, _) in enumerate(entries)}
+
+    def mirror(k):
+        if len(k) != 1:
+            return None
+        if k in "([{":
+            return {"(": ")", "[": "]", "{": "}"}[k]
+        try:
+            nm = unicodedata.name(k)
+            return unicodedata.lookup(nm.replace("LEFT", "RIGHT")) if "LEFT" in nm else None
+        except (ValueError, KeyError):
+            return None
+    pairs = [(i, idx[mirror(k)]) for i, (k, _) in enumerate(entries) if mirror(k) in idx]
+    mir = "(declare-fun mirror (Int) Int)\n" + "\n".join("(assert (= (mirror %d) %d))" % (i, dict(pairs).get(i, -1)) for i in range(len(entries)))
+    dom_m = pre + "\n" + mir + "\n(declare-const j Int)(assert (= j (mirror i)))(assert (>= j 0))(assert (and (>= k2 0) (< k2 (nalts j))))(assert (= (ty i k) %d))(assert (= (ty j k2) %d))" % (flags["LEFT_FENCE"], flags["RIGHT_FENCE"])
+
+    def w_pair(m):
+        ki, kj = entries[m["i"]][0], entries[m["j"]][0]
+        return ("fence-pair:" + ki + kj, "the fences %r (%r) and %r (%r) have different priorities: %r closes a different row than %r opened" % (ki, entries[m["i"]][1], kj, entries[m["j"]][1], kj, ki), {"open": ki, "close": kj})
+    run.smt("Z-C03-a.fence_pairs_agree", dom_m + "\n(assert (distinct (pr i k) (pr j k2)))", get=("i", "j", "k", "k2"), witness=w_pair, vacuity=dom_m,
+            claim="for the %d fence pairs (ASCII brackets and Unicode LEFT x / RIGHT x characters) the opening and the closing fence have the same priority" % len(pairs))
+
     # special operators: looked-up keys exist, have the stated form, and the ad-hoc priorities stand in the stated relation
     idx = {k: i for i, (k, _) in enumerate(entries)}
     facts = []
